@@ -1,5 +1,5 @@
 #!/bin/bash
 # run_all.sh [quick|thorough] [parallelism]: run every property's check against /repo itself (rewrites evidence/*.json)
 T=${1:-quick}; J=${2:-4}
-cd /verif
-printf '%s\n' C01 C02 C03 C04 C05 C06 C07 C08 C09 C10 C11 C12 C13 C14 C15 C16 C17 C18 C19 C20 | xargs -P $J -I{} sh -c "bin/check {} $T > /tmp/pwv_all_{}.log 2>&1; echo {} rc=\$? \$(grep -c '^VIOLATION' /tmp/pwv_all_{}.log) violations \$(grep -c '^KNOWN' /tmp/pwv_all_{}.log) known; tail -1 /tmp/pwv_all_{}.log | cut -c1-160"
+cd "$(dirname "$0")/.."
+printf '%s\n' C01 C02 C03 C04 C05 C06 C07 C08 C09 C10 C11 C12 C13 C14 C15 C16 C17 C18 C19 C20 | xargs -P $J -I{} sh -c "bin/check {} $T > ${TMPDIR:-/tmp}/pwv_all_$$_{}.log 2>&1; echo {} rc=\$? \$(grep -c '^VIOLATION' ${TMPDIR:-/tmp}/pwv_all_$$_{}.log) violations \$(grep -c '^KNOWN' ${TMPDIR:-/tmp}/pwv_all_$$_{}.log) known; tail -1 ${TMPDIR:-/tmp}/pwv_all_$$_{}.log | cut -c1-160"
